@@ -607,6 +607,12 @@ impl Model {
                 if name == "_Tables" || name == "_Columns" || name == "_Validation" || self.tables.contains_key(name) {
                     return Expect::Err;
                 }
+                // the string pool's two streams are stored under table names:
+                // a table of that name may be refused; if it is accepted it
+                // must behave like any other table
+                if name == "_StringPool" || name == "_StringData" {
+                    verdict = Expect::Either;
+                }
                 if cols.is_empty() || cols.len() > 32 || !cols.iter().any(|c| c.key) {
                     return Expect::Err;
                 }
